@@ -71,7 +71,7 @@ let () =
          let show n =
            Printf.sprintf "N:%s:%s:%s:%s:%s:%d:%s" (hex (String.concat "/" (List.map (fun c -> String.concat "" (List.map (fun x -> String.make 1 (Char.chr (int_of_n x))) c)) n.f_path) |> fun s -> List.init (String.length s) (fun i -> n_of_int (Char.code s.[i]))))
              (dec_of_n n.f_mode) (dec_of_n n.f_uid) (dec_of_n n.f_gid) (dec_of_n n.f_devno)
-             (if n.f_implicit then 1 else 0) (match n.f_extra with None -> "-" | Some e -> hex e) in
+             ((if n.f_implicit then 1 else 0) + (if n.f_hard then 4 else 0)) (match n.f_extra with None -> "-" | Some e -> hex e) in
          Printf.printf "%d %d %s\n" (match err with None -> 0 | Some _ -> -1) (List.length st)
            (String.concat ";" (List.map show st))
        | "O" :: uroot :: rest ->
